@@ -72,6 +72,24 @@ def r_bounds(ctx):
                     _check_ctor(res, ctx, f, tt, I, e, ctors[callee])
                 elif callee in acc:
                     _check_accessor(res, ctx, f, tt, I, e)
+            # (d) a reference made directly from a slot pointer computed from a caller-controlled index (`&mut *base.add(index)`): needs index < LEN
+            for e in I.all_effects(("REFOF",)):
+                s = slot_of(e["ptr"])
+                if not s or s[1] is None or not s[1].m:
+                    continue
+                if not any(isinstance(a, tuple) and a and a[0] == "param" for a in s[1].atoms()):
+                    continue
+                lp = len_path_of_mem(s[0])
+                if lp is None:
+                    continue
+                res.inst(sample={"entry": fpath, "reference_from_slot_pointer": str(e["ptr"]), "facts": fmt_facts(e["facts"])}, func=fpath)
+                L = as_poly(e["lens"].get(lp)) if e["lens"].get(lp) is not None else Poly.atom(("init", lp, 0))
+                if implies(e["facts"], cmp_fact("Lt", s[1], L)):
+                    res.ok()
+                else:
+                    res.fail(fpath, "unchecked-access", "a reference to slot %s is made from a raw pointer without index < LEN being established (known: %s): on an "
+                             "empty or shorter vector it points at storage that holds no live element" % (s[1], fmt_facts(e["facts"]) or "nothing"),
+                             span=span_of_effect(e))
             _check_insert_like(res, ctx, f, tt, I)
             _check_element_handles(res, ctx, f, tt, I)
     # insert-like shifts inside unsafe public functions (type unchecked, index checked inside)
@@ -347,6 +365,34 @@ def handle_roles(ctx):
     return out
 
 
+def cursor_prefix(ctx, adt, depth=0):
+    """field path of the cursor iterator (a value of type iter::Iter) inside a range handle: its index / end are the live cursors, every other field that
+    holds the range start / end is the range recorded at creation - wherever the struct keeps them"""
+    a = ctx.fx.adts.get(adt)
+    if not a or depth > 3:
+        return None
+    for v in a["variants"]:
+        for fl in v["fields"]:
+            t = fl["ty"]
+            if t.get("k") == "adt" and t.get("path") == "iter::Iter":
+                return (fl["name"],)
+    for v in a["variants"]:
+        for fl in v["fields"]:
+            t = fl["ty"]
+            if t.get("k") == "adt" and t.get("path") in ctx.fx.adts:
+                sub = cursor_prefix(ctx, t["path"], depth + 1)
+                if sub is not None:
+                    return (fl["name"],) + sub
+    return None
+
+
+def is_cursor_key(ctx, adt, k):
+    pre = cursor_prefix(ctx, adt)
+    if pre is None:
+        return len(k) == 2
+    return tuple(k[:len(pre)]) == tuple(pre)
+
+
 def range_handle_invariants(ctx, adt, prefix=()):
     """facts assumed at the entry of a range handle's Drop: start <= iter.index <= iter.end <= [end <=] original_len.
     They are established at creation (R-BOUNDS: start<=end<=LEN; R-FORMULA ctor-fields) and preserved by the cursor
@@ -355,10 +401,10 @@ def range_handle_invariants(ctx, adt, prefix=()):
 
     def F(k):
         return Poly.atom(("init", (("P", 1), tuple(prefix) + tuple(k)), 0))
-    start = [k for k in roles.get("index", []) if len(k) == 1]
-    it_index = [k for k in roles.get("index", []) if len(k) == 2]
-    it_end = [k for k in roles.get("end", []) if len(k) == 2]
-    endf = [k for k in roles.get("end", []) if len(k) == 1]
+    start = [k for k in roles.get("index", []) if not is_cursor_key(ctx, adt, k)]
+    it_index = [k for k in roles.get("index", []) if is_cursor_key(ctx, adt, k)]
+    it_end = [k for k in roles.get("end", []) if is_cursor_key(ctx, adt, k)]
+    endf = [k for k in roles.get("end", []) if not is_cursor_key(ctx, adt, k)]
     ol = roles.get("original_len", [])
     facts = []
     if start and it_index:
@@ -375,7 +421,7 @@ def range_handle_invariants(ctx, adt, prefix=()):
         facts.append(cmp_fact("Le", F(start[0]), F(endf[0])))
     # the visible length was lowered to start / index at creation (R-LENLOWER)
     vp = roles.get("vecptr", [])
-    lowered = start or [k for k in roles.get("index", []) if len(k) == 1]
+    lowered = start or [k for k in roles.get("index", []) if not is_cursor_key(ctx, adt, k)]
     if vp and lowered:
         ptr_atom = ("init", (("P", 1), tuple(prefix) + tuple(vp[0])), 0)
         lp = (("V", ptr_atom), ("len",))
